@@ -172,6 +172,22 @@ let handle kind a =
       Some (cres_s (fun rs -> "Ok:" ^ String.concat "," (List.map (fun (site, sm) ->
               string_of_int (List.length site + List.length sm)) rs)) r
             ^ "|" ^ string_of_int (hexlen a.(0) - int_of_nat left))
+  | "tbir" ->
+      (* bgzf-file cap script: tabix read_index stacked on the BGZF block reader *)
+      let cap = nat_of_int (int_of_string a.(1)) in
+      let (r, _) = run_tabix inflate cap (mk a.(0) a.(2)) in
+      let fl sep l f = if l = [] then "_" else String.concat sep (List.map f l) in
+      let fo o f = match o with None -> "-" | Some x -> f x in
+      let pairs cs = fl "," cs (fun (x, y) -> dec_of_n x ^ ":" ^ dec_of_n y) in
+      let meta mo = fo mo (fun m ->
+        String.concat ":" [dec_of_n m.m_beg; dec_of_n m.m_end; dec_of_n m.m_mapped; dec_of_n m.m_unmapped]) in
+      let bins bs = fl ";" bs (fun (id, cs) -> dec_of_n id ^ "=" ^ pairs cs) in
+      let tref r = String.concat "|" [bins r.br_bins; meta r.br_meta; fl "," r.br_intervals dec_of_n] in
+      let hdr h = String.concat ":" [
+        (match h.h_format with FGeneric false -> "g" | FGeneric true -> "b" | FSam -> "s" | FVcf -> "v");
+        dec_of_n h.h_seq; dec_of_n h.h_beg; fo h.h_end dec_of_n; dec_of_n h.h_meta; dec_of_n h.h_skip;
+        fl "," h.h_names (fun nm -> if nm = [] then "." else hex_of_bytes nm) ] in
+      Some (cres_s (fun i -> "Ok:" ^ fo i.ti_header hdr ^ " " ^ fl "/" i.ti_refs tref ^ " " ^ fo i.ti_unplaced dec_of_n) r)
   | "csih" ->
       (* data cap script chunk *)
       let cap = nat_of_int (int_of_string a.(1)) in
